@@ -2,6 +2,7 @@ package extract
 
 import (
 	"go/ast"
+	"path/filepath"
 	"sort"
 	"strings"
 )
@@ -179,5 +180,14 @@ func (c *ctx) skeletonFacts() {
 	c.add("Jws", "skel_verifyECSignature", lt, c.skel("pkg/jwsutil/signature.go", "verifyECSignature"), "pkg/jwsutil/signature.go:verifyECSignature", "")
 	c.add("Jws", "skel_verifyEd25519Signature", lt, c.skel("pkg/jwsutil/signature.go", "verifyEd25519Signature"), "pkg/jwsutil/signature.go", "")
 	c.add("Jws", "skel_GetED25519PublicKey", lt, c.skel("pkg/jwsutil/signature.go", "GetED25519PublicKey"), "pkg/jwsutil/signature.go", "")
+	for _, p := range []pf{{"pkg/util/ecsigner/signer.go", "Sign"}, {"pkg/util/ecsigner/signer.go", "getHasher"}, {"pkg/util/ecsigner/signer.go", "copyPadded"},
+		{"pkg/util/ecsigner/signer.go", "Headers"}, {"pkg/util/signutil/signature.go", "SignPayload"}, {"pkg/util/signutil/signature.go", "SignModel"},
+		{"pkg/util/pubkey/jwk.go", "GetPublicKeyJWK"}, {"pkg/jwsutil/jwk.go", "UnmarshalJSON"}, {"pkg/jwsutil/jwk.go", "MarshalJSON"},
+		{"pkg/jwsutil/jwk.go", "unmarshalSecp256k1"}, {"pkg/jwsutil/jwk.go", "marshalSecp256k1"}, {"pkg/jwsutil/jwk.go", "newFixedSizeBuffer"},
+		{"pkg/jwsutil/jwk.go", "curveSize"}, {"pkg/jwsutil/jwk.go", "isSecp256k1"}, {"pkg/jwsutil/jws.go", "NewJWS"}, {"pkg/jwsutil/jws.go", "SerializeCompact"},
+		{"pkg/jwsutil/jws.go", "sign"}, {"pkg/jwsutil/jws.go", "mergeHeaders"}, {"pkg/jws/jwk.go", "Validate"}} {
+		name := "skel_" + strings.ReplaceAll(strings.TrimSuffix(filepath.Base(p.rel), ".go"), "-", "_") + "_" + p.fn
+		c.add("Keys", name, lt, c.skel(p.rel, p.fn), p.rel+":"+p.fn, "control skeleton")
+	}
 	c.add("Jws", "skel_parseEllipticCurve", lt, c.skel("pkg/jwsutil/signature.go", "parseEllipticCurve"), "pkg/jwsutil/signature.go", "")
 }
